@@ -56,14 +56,15 @@ SVG = [({'xmldecl': False}, ['--no-xmldecl']), ({'svgns': False}, ['--no-namespa
        ({'title': 'T <&> "q"'}, ['--title', 'T <&> "q"']), ({'desc': 'd\xe4'}, ['--desc', 'd\xe4']), ({'svgid': 'i1'}, ['--svgid', 'i1']),
        ({'svgclass': 'c1'}, ['--svgclass', 'c1']), ({'lineclass': 'l1'}, ['--lineclass', 'l1']), ({'omitsize': True}, ['--no-size']),
        ({'unit': 'mm'}, ['--unit', 'mm']), ({'svgversion': 1.1}, ['--svgversion', '1.1']), ({'svgversion': 2.0}, ['--svgversion', '2']),
+       ({'svgversion': 1.0}, ['--svgversion', '1']),
        ({'encoding': 'iso-8859-1'}, ['--svgencoding', 'iso-8859-1']), ({'draw_transparent': True}, ['--draw-transparent']),
        ({'svgclass': None, 'lineclass': None}, ['--no-classes']), ({'desc': '\u20ac uro \u4e66'}, ['--desc', '\u20ac uro \u4e66'])]
 MENU = {
     'svg': COMMON + DARK + LIGHT + TRANS + MODCOL[:4] + SVG,
-    'svgz': COMMON[:2] + DARK[:1] + LIGHT + SVG[:4],
-    'png': COMMON + DARK + LIGHT + TRANS + MODCOL + [({'dpi': 300}, ['--dpi', '300'])],
+    'svgz': COMMON[:2] + DARK[:1] + LIGHT + SVG[:4] + [({'compresslevel': 1}, None)],
+    'png': COMMON + DARK + LIGHT + TRANS + MODCOL + [({'dpi': 300}, ['--dpi', '300']), ({'compresslevel': 0}, None), ({'compresslevel': 5}, None)],
     'eps': COMMON + DARK + LIGHT,
-    'pdf': COMMON + DARK + LIGHT,
+    'pdf': COMMON + DARK + LIGHT + [({'compresslevel': 0}, None)],
     'txt': COMMON[2:] + [({'dark': '#'}, ['--dark=#']), ({'light': '.'}, ['--light', '.']), ({'dark': 'X', 'light': 'O'}, ['--dark', 'X', '--light', 'O'])],
     'ans': COMMON[2:],
     'pbm': COMMON,
@@ -107,6 +108,7 @@ def gen_cases(tier):
         yield ('seq', kind)
     yield ('unknown',)
     yield ('terminal',)
+    yield ('sameobject',)
     if tier == 'thorough':
         for kind in MENU:
             yield ('subproc', kind)
@@ -145,9 +147,13 @@ def routes(sym, kind, combo, acc, tmp):
     menu = MENU[kind]
     kw = {}
     flags = []
+    api_only = False
     for i in combo:
         kw.update(menu[i][0])
-        flags += menu[i][1]
+        if menu[i][1] is None:
+            api_only = True             # option that the command line tool does not expose
+        else:
+            flags += menu[i][1]
     case = ('routes1', sym, kind, list(combo))
     qr = api_symbol(sym)
     docs = {}
@@ -212,9 +218,10 @@ def routes(sym, kind, combo, acc, tmp):
             return by_cli(ext)
         except SystemExit as e:
             raise ValueError('exit %r' % e.code)
-    attempt('cli', by_cli_guard)
-    attempt('cli-upper', lambda: by_cli_guard(kind.upper()))
-    attempt('cli-mixed', lambda: by_cli_guard(kind[:-1] + kind[-1].upper()))
+    if not api_only:
+        attempt('cli', by_cli_guard)
+        attempt('cli-upper', lambda: by_cli_guard(kind.upper()))
+        attempt('cli-mixed', lambda: by_cli_guard(kind[:-1] + kind[-1].upper()))
     if kind == 'png':
         attempt('png_data_uri', lambda: base64.b64decode(qr.png_data_uri(**kw).split('base64,', 1)[1], validate=True))
     ref_name = 'path-lower'
@@ -279,7 +286,52 @@ def routes(sym, kind, combo, acc, tmp):
     acc.sample({'symbol': sym, 'kind': kind, 'kw': kw, 'cli_flags': flags, 'routes': sorted(docs)})
 
 
+TWINS = [{'scale': 2}, {'scale': 2.0}, {'scale': 2}, {'svgversion': 1.0}, {'svgversion': 1}, {'border': 1}, {'border': True}, {'scale': 3, 'border': 0},
+         {'scale': 3.0, 'border': 0}, {'dark': '#000'}, {'dark': 'black'}, {'scale': 2, 'dark': (0, 0, 0)}, {'scale': 2.0, 'dark': (0.0, 0.0, 0.0) if False else (0, 0, 0)}]
+
+
+def sameobject_case(acc):
+    """One QRCode object, a sequence of calls whose keyword values compare equal but are not the same (2 / 2.0, 1 / 1.0 / True): every
+    result must equal the result of the same call on a fresh object (no per-object memo keyed by ==)."""
+    for sym in CORE_SYMBOLS:
+        shared = api_symbol(sym)
+        for order in (TWINS, list(reversed(TWINS))):
+            for kw in order:
+                for name, fn in (('svg_inline', lambda q: q.svg_inline(**kw)), ('svg_data_uri', lambda q: q.svg_data_uri(**kw)),
+                                 ('png_data_uri', lambda q: q.png_data_uri(**{k: v for k, v in kw.items() if k != 'svgversion'})),
+                                 ('save-svg', lambda q: _to_stream(q, 'svg', kw)), ('save-eps', lambda q: _to_stream(q, 'eps', {k: v for k, v in kw.items() if k != 'svgversion'}))):
+                    try:
+                        a = fn(shared)
+                    except Exception as e:
+                        a = 'exc:' + C.exc_name(e)
+                    try:
+                        b = fn(api_symbol(sym))
+                    except Exception as e:
+                        b = 'exc:' + C.exc_name(e)
+                    if isinstance(a, bytes):
+                        a, b = mask_ts(a), mask_ts(b)
+                    acc.eval(('sameobj', sym, name, repr(kw)), nontrivial=True, outcome=(a == b), state=('sameobj', sym, name))
+                    acc.count('sameobject_calls')
+                    if a != b:
+                        acc.violation('same-object/%s' % name, '%s(**%r) on a QRCode object that served other calls before differs from the same call on a fresh object'
+                                      % (name, kw), ('sameobject',))
+
+
+def _to_stream(q, kind, kw):
+    s = stream_for(kind)
+    q.save(s, kind=kind, **kw)
+    return to_bytes(kind, s.getvalue())
+
+
 def seq_case(kind, acc, tmp):
+    seq_case_1(kind, acc, tmp, SEQ)
+    if kind in ('txt', 'png'):
+        content, argv, kw = SEQ
+        seq_case_1(kind, acc, tmp, (content, argv + ['--pattern', '2'], dict(kw, mask=2)))
+        seq_case_1(kind, acc, tmp, (content, argv + ['--pattern', '0', '--no-error-boost'], dict(kw, mask=0, boost_error=False)))
+
+
+def seq_case_1(kind, acc, tmp, SEQ):
     content, argv, kw = SEQ
     seq = segno.make_sequence(content, **kw)
     n = len(seq)
@@ -411,6 +463,8 @@ def run_case(case, acc):
             unknown_case(acc, tmp)
         elif kind == 'terminal':
             terminal_case(acc)
+        elif kind == 'sameobject':
+            sameobject_case(acc)
         elif kind == 'subproc':
             subproc_case(case[1], acc, tmp)
         else:
